@@ -124,6 +124,9 @@ impl Property for C05 {
     fn required_classes(&self, _tier: Tier) -> Vec<&'static str> {
         vec!["nonzero_on_fork", "c_ge_2_nonzero", "both_refuse_too_large", "both_refuse_malformed", "both_refuse_wrong_network", "relation_checked_while_ingestion_paused"]
     }
+    fn fuzz_sequences(&self) -> Vec<(&'static str, usize)> {
+        vec![("/ops", 40)]
+    }
     fn run(&self, case: &Case05) -> Outcome {
         let budgets = case.budgets.clone();
         let case = &case.hist;
